@@ -312,19 +312,24 @@ Histories are arbitrary lists of `COp` — every chain notification of the Liste
 contracts (`block_connected`, `transactions_confirmed`, `best_block_updated`, `blocks_disconnected`)
 in any order, with any heights and transaction lists, interleaved with `provide_payment_preimage`
 calls at any point.  `C` is the commitment transaction (the one transaction for which the monitor
-queues a FundingSpendConfirmation), `K` the catalog of its tracked outputs.  The theorems are about
-outputs of the COUNTERPARTY's commitment (`holder = false`); they are `_partial` because
+queues a FundingSpendConfirmation), `K` the catalog of its tracked outputs — outputs of the
+counterparty's commitment (`holder = false`, CounterpartyOfferedHTLCOutput) and of OUR OWN
+(`holder = true`, HolderHTLCOutput) alike: since repo commit 0461f57 provide_payment_preimage dates
+a late holder claim at `confirmed_spend_height.unwrap_or(best)` (translated on every run; reverting
+that commit regenerates `holderPreimageOutpointHeight _ best := best` and breaks
+`late_holder_preimage_request_dated_at_confirmation` and the invariant proofs).  The theorems start
+from a monitor with no claim registered (claims a force-closing node registers at broadcast time,
+dated before the confirmation, are in the correspondence only) and are `_partial` because
 
 * histories containing `transaction_unconfirmed` are excluded (`NoUnconf`): the Confirm client that
   reports a re-org only that way never reaches OnchainTxHandler::blocks_disconnected for a
   transaction the handler does not track, so claims outlive their parent
-  (`unconfirm_only_keeps_claims_example`); that style is covered by the c11 correspondence;
+  (see the last example of this file); that style is covered by the c11 correspondence;
 * "not lost" is proved while the commitment is confirmed but NOT YET IRREVOCABLE
   (`¬ FscMat`): once `funding_spend_confirmed` is set, the real code dates a new preimage claim at the
-  tip and a one-block re-org drops it — `no_claim_lost_fails_after_final` (KF-C11-4); and for the
-  HOLDER commitment it always dates late claims at the tip — `no_claim_lost_fails_for_holder_commitment`
-  (KF-C11-3).  Both are kernel-checked counter-examples of the full statement in the model, and both
-  are reproduced on the real code by the harness oracle O1. -/
+  tip — for either commitment kind — and a one-block re-org drops it:
+  `no_claim_lost_fails_after_final` (KF-C11-4), a kernel-checked counter-example of the full
+  statement in the model, reproduced on the real code by the harness oracle O1. -/
 
 /-- What the Rust text says, as translated on this run: a preimage claim built while the commitment's
     FundingSpendConfirmation is still awaiting carries that entry's height, registration dates the
@@ -340,16 +345,28 @@ theorem late_preimage_request_dated_at_confirmation (h best : Nat) :
 
 example : claimCreationHeight none 107 = 107 ∧ claimDropped 103 102 = true ∧ claimDropped 103 103 = false := by decide
 
+/-- The holder branch, as translated on this run: a preimage claim on OUR commitment built while its
+    FundingSpendConfirmation is awaiting at `h` is stored with `Some(h)` (not with the tip), a claim
+    made when our commitment is seen confirming is stored with that block's height, and only once the
+    spend is irrevocable does the request fall back to the tip. -/
+theorem late_holder_preimage_request_dated_at_confirmation (h best : Nat) :
+    holderStoredHeight (holderPreimageOutpointHeight (some h) best) = some h ∧
+    holderStoredHeight (holderConfirmOutpointHeight h) = some h ∧
+    holderStoredHeight (holderPreimageOutpointHeight none best) = some best :=
+  ⟨rfl, rfl, rfl⟩
+
+example : claimCreationHeight (holderStoredHeight (holderPreimageOutpointHeight (some 100) 103)) 103 = 100 := by decide
+
 /-- Every claim is dated at its parent's confirmation.  After ANY history (no
-    `transaction_unconfirmed`), a claim the monitor holds on an output of the counterparty's
-    commitment `C` with creation height `c` means: `C`'s FundingSpendConfirmation is awaiting at
+    `transaction_unconfirmed`), a claim the monitor holds on an output of the commitment `C`
+    (the counterparty's or our own) with creation height `c` means: `C`'s FundingSpendConfirmation is awaiting at
     exactly height `c`, or `C` is irrevocably confirmed. -/
 theorem claim_dated_at_parent_confirmation_partial (cat : Catalog) (K : ClaimCat) (C : Nat)
     (hK : OneCommitment cat K C) (b0 : Nat) (ops : List COp) (hnu : NoUnconf ops)
-    (o : Nat) (i : OutInfo) (c : Nat) (hoi : (o, i) ∈ K.outs) (hh : i.holder = false)
+    (o : Nat) (i : OutInfo) (c : Nat) (hoi : (o, i) ∈ K.outs)
     (hx : (⟨o, c⟩ : Claim) ∈ (crun cat K (cinit b0) ops).claims) :
     FscAw C (crun cat K (cinit b0) ops).st c ∨ FscMat C (crun cat K (cinit b0) ops).st :=
-  (crun_inv (U := fun _ => False) hK hnu (fun _ _ _ _ h => h) (cinit_inv cat K C _ b0)).dated o i c hoi hh hx
+  (crun_inv (U := fun _ => False) hK hnu (fun _ _ _ _ h => h) (cinit_inv cat K C _ b0)).dated o i c hoi hx
 
 /-- … and its preimage is known. -/
 theorem claim_only_with_preimage_partial (cat : Catalog) (K : ClaimCat) (C : Nat)
@@ -369,7 +386,7 @@ theorem claim_only_with_preimage_partial (cat : Catalog) (K : ClaimCat) (C : Nat
     of the history and which no delivered transaction spends has its claim pending, dated `c`. -/
 theorem no_claim_lost_partial (cat : Catalog) (K : ClaimCat) (C : Nat)
     (hK : OneCommitment cat K C) (b0 : Nat) (ops : List COp) (hnu : NoUnconf ops)
-    (o : Nat) (i : OutInfo) (hoi : (o, i) ∈ K.outs) (hh : i.holder = false)
+    (o : Nat) (i : OutInfo) (hoi : (o, i) ∈ K.outs)
     (hunspent : ∀ t ∈ delivered (chainOps ops), o ∉ K.spends t)
     (hpre : preKnown (preimagesOf ops) i.needs = true)
     (c : Nat) (hconf : FscAw C (crun cat K (cinit b0) ops).st c)
@@ -377,8 +394,25 @@ theorem no_claim_lost_partial (cat : Catalog) (K : ClaimCat) (C : Nat)
     (⟨o, c⟩ : Claim) ∈ (crun cat K (cinit b0) ops).claims := by
   have hI := crun_inv (U := fun x => x = o) hK hnu
     (fun t ht o' ho' he => hunspent t ht (he ▸ ho')) (cinit_inv cat K C _ b0)
-  refine hI.kept o i c hoi hh rfl ?_ hconf hnf
+  refine hI.kept o i c hoi rfl ?_ hconf hnf
   exact preKnown_mono (fun q hq => (crun_pre cat K (cinit b0) ops q).2 (Or.inr hq)) hpre
+
+/-- … spelled out for OUR OWN commitment (the repaired KF-C11-3 shape): a preimage claim on the holder
+    commitment — whenever the preimage arrived — is pending and dated at the commitment's confirmation
+    height while that commitment is confirmed and not yet irrevocable, after any history. -/
+theorem holder_claim_kept_and_dated_partial (cat : Catalog) (K : ClaimCat) (C : Nat)
+    (hK : OneCommitment cat K C) (b0 : Nat) (ops : List COp) (hnu : NoUnconf ops)
+    (o : Nat) (i : OutInfo) (hoi : (o, i) ∈ K.outs) (_hh : i.holder = true)
+    (hunspent : ∀ t ∈ delivered (chainOps ops), o ∉ K.spends t)
+    (hpre : preKnown (preimagesOf ops) i.needs = true)
+    (c : Nat) (hconf : FscAw C (crun cat K (cinit b0) ops).st c)
+    (hnf : ¬ FscMat C (crun cat K (cinit b0) ops).st) :
+    (⟨o, c⟩ : Claim) ∈ (crun cat K (cinit b0) ops).claims ∧
+    ∀ c', (⟨o, c'⟩ : Claim) ∈ (crun cat K (cinit b0) ops).claims → c' = c := by
+  refine ⟨no_claim_lost_partial cat K C hK b0 ops hnu o i hoi hunspent hpre c hconf hnf, fun c' hx => ?_⟩
+  rcases claim_dated_at_parent_confirmation_partial cat K C hK b0 ops hnu o i c' hoi hx with h1 | h1
+  · exact FscAw_unique (crun_inv (U := fun _ => False) hK hnu (fun _ _ _ _ h => h) (cinit_inv cat K C _ b0)).base h1 hconf
+  · exact absurd h1 hnf
 
 /-- non-vacuity: commitment 1 confirms at 100, the preimage arrives three blocks later, a fork
     replaces the two blocks above 101 — the claim is registered at the preimage, dated 100, and
@@ -398,7 +432,7 @@ example :
     whose preimage is known, still dated `c`. -/
 theorem reorg_above_commitment_keeps_claims_partial (cat : Catalog) (K : ClaimCat) (C : Nat)
     (hK : OneCommitment cat K C) (b0 : Nat) (ops : List COp) (hnu : NoUnconf ops)
-    (o : Nat) (i : OutInfo) (hoi : (o, i) ∈ K.outs) (hh : i.holder = false)
+    (o : Nat) (i : OutInfo) (hoi : (o, i) ∈ K.outs)
     (hunspent : ∀ t ∈ delivered (chainOps ops), o ∉ K.spends t)
     (hpre : preKnown (preimagesOf ops) i.needs = true)
     (c : Nat) (hconf : FscAw C (crun cat K (cinit b0) ops).st c)
@@ -410,7 +444,7 @@ theorem reorg_above_commitment_keeps_claims_partial (cat : Catalog) (K : ClaimCa
     (fun t ht o' ho' he => hunspent t ht (he ▸ ho')) (cinit_inv cat K C _ b0)
   have hk : preKnown (crun cat K (cinit b0) ops).pre i.needs = true :=
     preKnown_mono (fun q hq => (crun_pre cat K (cinit b0) ops q).2 (Or.inr hq)) hpre
-  have hin := hI.kept o i c hoi hh rfl hk hconf hnf
+  have hin := hI.kept o i c hoi rfl hk hconf hnf
   have hrw : (⟨o, c⟩ : Claim) ∈ (cRewind K (crun cat K (cinit b0) ops) h).claims :=
     (mem_handlerDisconnect_claims (hAw := (crun cat K (cinit b0) ops).hAw)).2 ⟨hin, hch⟩
   constructor
@@ -431,10 +465,10 @@ theorem reorg_above_commitment_keeps_claims_partial (cat : Catalog) (K : ClaimCa
 theorem claims_dropped_when_parent_disconnected_partial (cat : Catalog) (K : ClaimCat) (C : Nat)
     (hK : OneCommitment cat K C) (b0 : Nat) (ops : List COp) (hnu : NoUnconf ops)
     (hgone : known (crun cat K (cinit b0) ops).st C = false)
-    (o : Nat) (i : OutInfo) (c : Nat) (hoi : (o, i) ∈ K.outs) (hh : i.holder = false) :
+    (o : Nat) (i : OutInfo) (c : Nat) (hoi : (o, i) ∈ K.outs) :
     (⟨o, c⟩ : Claim) ∉ (crun cat K (cinit b0) ops).claims := by
   intro hx
-  rcases claim_dated_at_parent_confirmation_partial cat K C hK b0 ops hnu o i c hoi hh hx with h1 | h1
+  rcases claim_dated_at_parent_confirmation_partial cat K C hK b0 ops hnu o i c hoi hx with h1 | h1
   · rw [FscAw_known h1] at hgone; cases hgone
   · rw [FscMat_known h1] at hgone; cases hgone
 
@@ -445,10 +479,10 @@ theorem reorg_below_commitment_drops_claims_partial (cat : Catalog) (K : ClaimCa
     (c : Nat) (hconf : FscAw C (crun cat K (cinit b0) ops).st c)
     (hnf : ¬ FscMat C (crun cat K (cinit b0) ops).st) (hcat : ∀ ev ∈ cat C, ev.kind = 2)
     (h : Nat) (hlt : h < c) (hbest : c ≤ (crun cat K (cinit b0) ops).st.best)
-    (o : Nat) (i : OutInfo) (c' : Nat) (hoi : (o, i) ∈ K.outs) (hh : i.holder = false) :
+    (o : Nat) (i : OutInfo) (c' : Nat) (hoi : (o, i) ∈ K.outs) :
     (⟨o, c'⟩ : Claim) ∉ (crun cat K (cinit b0) (ops ++ [.chain (.blocksDisconnected h)])).claims := by
   have hnu' : NoUnconf (ops ++ [.chain (.blocksDisconnected h)]) := NoUnconf_append.2 ⟨hnu, trivial⟩
-  apply claims_dropped_when_parent_disconnected_partial cat K C hK b0 _ hnu' _ o i c' hoi hh
+  apply claims_dropped_when_parent_disconnected_partial cat K C hK b0 _ hnu' _ o i c' hoi
   have hI := crun_inv (U := fun _ => False) hK hnu (fun _ _ _ _ h => h) (cinit_inv cat K C _ b0)
   rw [crun_append, crun_cons]
   show known (cstep cat K _ (.chain (.blocksDisconnected h))).st C = false
@@ -476,7 +510,7 @@ theorem claims_regenerated_on_reconfirmation_partial (cat : Catalog) (K : ClaimC
     (hgone : known (crun cat K (cinit b0) ops).st C = false)
     (h' : Nat) (txs : List Nat) (hC : C ∈ txs)
     (hshallow : (crun cat K (cinit b0) ops).st.best + 1 < h' + ANTI_REORG_DELAY)
-    (o : Nat) (i : OutInfo) (hoi : (o, i) ∈ K.outs) (hh : i.holder = false)
+    (o : Nat) (i : OutInfo) (hoi : (o, i) ∈ K.outs)
     (hunspent : ∀ t ∈ delivered (chainOps ops) ++ txs, o ∉ K.spends t)
     (hpre : preKnown (preimagesOf ops) i.needs = true) :
     (⟨o, h'⟩ : Claim) ∈ (crun cat K (cinit b0) (ops ++ [.chain (.txsConfirmed h' txs)])).claims := by
@@ -497,7 +531,7 @@ theorem claims_regenerated_on_reconfirmation_partial (cat : Catalog) (K : ClaimC
     have hA : ANTI_REORG_DELAY = 6 := rfl
     omega
   obtain ⟨ev, hev, hk2⟩ := hK.has_fsc
-  apply no_claim_lost_partial cat K C hK b0 _ hnu' o i hoi hh (by rw [hd]; exact hunspent) (by rw [hp]; exact hpre)
+  apply no_claim_lost_partial cat K C hK b0 _ hnu' o i hoi (by rw [hd]; exact hunspent) (by rw [hp]; exact hpre)
   · rw [hstep]
     exact ⟨_, mem_txsConfirmed_awaiting.2 ⟨addTxs_adds (cat := cat) (h := h') hC hgone hev, notReached _ rfl⟩, rfl, hk2, rfl⟩
   · rw [hstep]
@@ -523,14 +557,14 @@ example :
 /-- Path independence of the claims view.  Two ARBITRARY histories (different forks, different
     notification styles, preimages provided at different moments and in different orders) that end
     with the same monitor view of the chain (`Equiv`) and provided the same set of preimages hold the
-    same claims, with the same creation heights, on every output of the counterparty's commitment
+    same claims, with the same creation heights, on every output of the commitment (either kind)
     that neither history spends — while the commitment is not yet irrevocable. -/
 theorem claims_view_path_independent_partial (cat : Catalog) (K : ClaimCat) (C : Nat)
     (hK : OneCommitment cat K C) (b0 : Nat) (ops₁ ops₂ : List COp)
     (hnu₁ : NoUnconf ops₁) (hnu₂ : NoUnconf ops₂)
     (hst : Equiv (run cat (init b0) (chainOps ops₁)) (run cat (init b0) (chainOps ops₂)))
     (hpre : ∀ q, q ∈ preimagesOf ops₁ ↔ q ∈ preimagesOf ops₂)
-    (o : Nat) (i : OutInfo) (hoi : (o, i) ∈ K.outs) (hh : i.holder = false)
+    (o : Nat) (i : OutInfo) (hoi : (o, i) ∈ K.outs)
     (hu₁ : ∀ t ∈ delivered (chainOps ops₁), o ∉ K.spends t)
     (hu₂ : ∀ t ∈ delivered (chainOps ops₂), o ∉ K.spends t)
     (hnf : ¬ FscMat C (crun cat K (cinit b0) ops₁).st) (c : Nat) :
@@ -550,17 +584,17 @@ theorem claims_view_path_independent_partial (cat : Catalog) (K : ClaimCat) (C :
     · rintro ⟨e, he, h⟩; exact ⟨e, (hst.2.2 e).2 he, h⟩
   constructor
   · intro hx
-    have hd := claim_dated_at_parent_confirmation_partial cat K C hK b0 ops₁ hnu₁ o i c hoi hh hx
+    have hd := claim_dated_at_parent_confirmation_partial cat K C hK b0 ops₁ hnu₁ o i c hoi hx
     have hp := claim_only_with_preimage_partial cat K C hK b0 ops₁ hnu₁ o i c hoi hx
     rcases hd with hd | hd
-    · exact no_claim_lost_partial cat K C hK b0 ops₂ hnu₂ o i hoi hh hu₂
+    · exact no_claim_lost_partial cat K C hK b0 ops₂ hnu₂ o i hoi hu₂
         (preKnown_mono (fun q hq => (hpre q).1 hq) hp) c ((awIff c).1 hd) (fun hm => hnf (matIff.2 hm))
     · exact absurd hd hnf
   · intro hx
-    have hd := claim_dated_at_parent_confirmation_partial cat K C hK b0 ops₂ hnu₂ o i c hoi hh hx
+    have hd := claim_dated_at_parent_confirmation_partial cat K C hK b0 ops₂ hnu₂ o i c hoi hx
     have hp := claim_only_with_preimage_partial cat K C hK b0 ops₂ hnu₂ o i c hoi hx
     rcases hd with hd | hd
-    · exact no_claim_lost_partial cat K C hK b0 ops₁ hnu₁ o i hoi hh hu₁
+    · exact no_claim_lost_partial cat K C hK b0 ops₁ hnu₁ o i hoi hu₁
         (preKnown_mono (fun q hq => (hpre q).2 hq) hp) c ((awIff c).2 hd) hnf
     · exact absurd (matIff.2 hd) hnf
 
@@ -572,13 +606,13 @@ theorem claims_depend_only_on_chain_and_preimages_partial (cat : Catalog) (K : C
     (hnu₁ : NoUnconf ops₁) (hnu₂ : NoUnconf ops₂)
     (hp₁ : Presents b0 ch (chainOps ops₁)) (hp₂ : Presents b0 ch (chainOps ops₂))
     (hpre : ∀ q, q ∈ preimagesOf ops₁ ↔ q ∈ preimagesOf ops₂)
-    (o : Nat) (i : OutInfo) (hoi : (o, i) ∈ K.outs) (hh : i.holder = false)
+    (o : Nat) (i : OutInfo) (hoi : (o, i) ∈ K.outs)
     (hu₁ : ∀ t ∈ delivered (chainOps ops₁), o ∉ K.spends t)
     (hu₂ : ∀ t ∈ delivered (chainOps ops₂), o ∉ K.spends t)
     (hnf : ¬ FscMat C (crun cat K (cinit b0) ops₁).st) (c : Nat) :
     (⟨o, c⟩ : Claim) ∈ (crun cat K (cinit b0) ops₁).claims ↔ (⟨o, c⟩ : Claim) ∈ (crun cat K (cinit b0) ops₂).claims :=
   claims_view_path_independent_partial cat K C hK b0 ops₁ ops₂ hnu₁ hnu₂
-    (delivery_style_independent cat b0 ch _ _ hwf hp₁ hp₂) hpre o i hoi hh hu₁ hu₂ hnf c
+    (delivery_style_independent cat b0 ch _ _ hwf hp₁ hp₂) hpre o i hoi hu₁ hu₂ hnf c
 
 /-- … and a history that went through a connected-then-disconnected fork (shallower than
     ANTI_REORG_DELAY, any of the four best-height-announcing rewinds, any per-block styles) holds the
@@ -596,14 +630,14 @@ theorem claims_after_fork_as_if_never_seen_partial (cat : Catalog) (K : ClaimCat
     (hd : tip b0 (pre ++ forkB) < h + ANTI_REORG_DELAY) (hge : tip b0 (pre ++ forkB) ≤ tip b0 (pre ++ final))
     (hp₂ : Presents b0 (pre ++ final) (chainOps ops₂))
     (hpre : ∀ q, q ∈ preimagesOf ops₁ ↔ q ∈ preimagesOf ops₂)
-    (o : Nat) (i : OutInfo) (hoi : (o, i) ∈ K.outs) (hh : i.holder = false)
+    (o : Nat) (i : OutInfo) (hoi : (o, i) ∈ K.outs)
     (hu₁ : ∀ t ∈ delivered (chainOps ops₁), o ∉ K.spends t)
     (hu₂ : ∀ t ∈ delivered (chainOps ops₂), o ∉ K.spends t)
     (hnf : ¬ FscMat C (crun cat K (cinit b0) ops₁).st) (c : Nat) :
     (⟨o, c⟩ : Claim) ∈ (crun cat K (cinit b0) ops₁).claims ↔ (⟨o, c⟩ : Claim) ∈ (crun cat K (cinit b0) ops₂).claims :=
   claims_view_path_independent_partial cat K C hK b0 ops₁ ops₂ hnu₁ hnu₂
     (hshape ▸ fork_vs_forkfree_partial cat style r hr pre forkB final b0 h _ hsF hsC hpreB hforkB hfin hb0 hne hwfF hwf hd hge hp₂)
-    hpre o i hoi hh hu₁ hu₂ hnf c
+    hpre o i hoi hu₁ hu₂ hnf c
 
 /-- non-vacuity of path independence: the preimage before the commitment confirms / two blocks
     after it; whole blocks / best-block-first; with and without a depth-2 fork above the commitment —
@@ -635,50 +669,54 @@ private theorem exCat_one (K : ClaimCat) (hp : ∀ o i, (o, i) ∈ K.outs → i.
   parents := hp
   functional := hf
 
-/-- `no_claim_lost` WITHOUT the "not yet irrevocable" hypothesis (commitment awaiting OR final) -/
-def NoClaimLostWhenConfirmed : Prop :=
+/-- `no_claim_lost` WITHOUT the "not yet irrevocable" hypothesis (commitment awaiting OR final), for
+    outputs of the counterparty's (`holder = false`) or of our own (`holder = true`) commitment -/
+def NoClaimLostWhenConfirmed (holder : Bool) : Prop :=
   ∀ (cat : Catalog) (K : ClaimCat) (C : Nat), OneCommitment cat K C → ∀ (b0 : Nat) (ops : List COp), NoUnconf ops →
-    ∀ (o : Nat) (i : OutInfo), (o, i) ∈ K.outs → i.holder = false →
+    ∀ (o : Nat) (i : OutInfo), (o, i) ∈ K.outs → i.holder = holder →
       (∀ t ∈ delivered (chainOps ops), o ∉ K.spends t) → preKnown (preimagesOf ops) i.needs = true →
       ((∃ c, FscAw C (crun cat K (cinit b0) ops).st c) ∨ FscMat C (crun cat K (cinit b0) ops).st) →
       hasClaim (crun cat K (cinit b0) ops).claims o = true
 
-/-- KF-C11-4 in the model: the commitment confirms at 100 and becomes irrevocable at 105; the
-    preimage arrives then (`funding_spend_confirmed` ⇒ confirmation height `None` ⇒ the claim is dated
-    at the tip, 105); a ONE-block re-org (105 → 104) drops the claim although the commitment is
-    irrevocably confirmed, the preimage known and the output unspent. -/
-theorem no_claim_lost_fails_after_final : ¬ NoClaimLostWhenConfirmed := by
+/-- KF-C11-4 in the model, for BOTH commitment kinds: the commitment confirms at 100 and becomes
+    irrevocable at 105; the preimage arrives then (`funding_spend_confirmed` ⇒ confirmation height
+    `None` ⇒ the claim is dated at the tip, 105 — in the holder branch through
+    `confirmed_spend_height.unwrap_or(best)`); a ONE-block re-org (105 → 104) drops the claim although
+    the commitment is irrevocably confirmed, the preimage known and the output unspent. -/
+theorem no_claim_lost_fails_after_final (holder : Bool) : ¬ NoClaimLostWhenConfirmed holder := by
   intro hall
-  let K : ClaimCat := { outs := [(7, { parent := 1, needs := some 5, holder := false })], spends := fun _ => [] }
-  have hK : OneCommitment exCat K 1 := exCat_one K (by intro o i h; simp [K] at h; rw [h.2])
-    (by intro o i i' h h'; simp [K] at h h'; rw [h.2, h'.2])
-  have := hall exCat K 1 hK 99
-    [.chain (.blockConnected 100 [1]), .chain (.bestBlock 105), .preimage 5, .chain (.blocksDisconnected 104)]
-    (by simp [NoUnconf]) 7 { parent := 1, needs := some 5, holder := false } (by simp [K]) rfl (by intro t _; simp [K]) (by decide) (Or.inr (by decide))
-  revert this
-  decide
+  cases holder with
+  | false =>
+    let K : ClaimCat := { outs := [(7, { parent := 1, needs := some 5, holder := false })], spends := fun _ => [] }
+    have hK : OneCommitment exCat K 1 := exCat_one K (by intro o i h; simp [K] at h; rw [h.2])
+      (by intro o i i' h h'; simp [K] at h h'; rw [h.2, h'.2])
+    have := hall exCat K 1 hK 99
+      [.chain (.blockConnected 100 [1]), .chain (.bestBlock 105), .preimage 5, .chain (.blocksDisconnected 104)]
+      (by simp [NoUnconf]) 7 { parent := 1, needs := some 5, holder := false } (by simp [K]) rfl (by intro t _; simp [K])
+      (by decide) (Or.inr (by decide))
+    revert this
+    decide
+  | true =>
+    let K : ClaimCat := { outs := [(7, { parent := 1, needs := some 5, holder := true })], spends := fun _ => [] }
+    have hK : OneCommitment exCat K 1 := exCat_one K (by intro o i h; simp [K] at h; rw [h.2])
+      (by intro o i i' h h'; simp [K] at h h'; rw [h.2, h'.2])
+    have := hall exCat K 1 hK 99
+      [.chain (.blockConnected 100 [1]), .chain (.bestBlock 105), .preimage 5, .chain (.blocksDisconnected 104)]
+      (by simp [NoUnconf]) 7 { parent := 1, needs := some 5, holder := true } (by simp [K]) rfl (by intro t _; simp [K])
+      (by decide) (Or.inr (by decide))
+    revert this
+    decide
 
-/-- the same statement for an output of the HOLDER commitment -/
-def NoClaimLostHolder : Prop :=
-  ∀ (cat : Catalog) (K : ClaimCat) (C : Nat), OneCommitment cat K C → ∀ (b0 : Nat) (ops : List COp), NoUnconf ops →
-    ∀ (o : Nat) (i : OutInfo), (o, i) ∈ K.outs → i.holder = true →
-      (∀ t ∈ delivered (chainOps ops), o ∉ K.spends t) → preKnown (preimagesOf ops) i.needs = true →
-      (∀ c, FscAw C (crun cat K (cinit b0) ops).st c → ¬ FscMat C (crun cat K (cinit b0) ops).st →
-        hasClaim (crun cat K (cinit b0) ops).claims o = true)
-
-/-- KF-C11-3 in the model: OUR commitment confirms at 100, the preimage arrives two blocks later
-    (provide_payment_preimage hands `best_block.height` to get_broadcasted_holder_claims ⇒ the claim is
-    dated 102); a fork replacing only block 102 drops it although the commitment (at 100) is untouched. -/
-theorem no_claim_lost_fails_for_holder_commitment : ¬ NoClaimLostHolder := by
-  intro hall
-  let K : ClaimCat := { outs := [(7, { parent := 1, needs := some 5, holder := true })], spends := fun _ => [] }
-  have hK : OneCommitment exCat K 1 := exCat_one K (by intro o i h; simp [K] at h; rw [h.2])
-    (by intro o i i' h h'; simp [K] at h h'; rw [h.2, h'.2])
-  have := hall exCat K 1 hK 99
-    [.chain (.blockConnected 100 [1]), .chain (.bestBlock 102), .preimage 5, .chain (.blocksDisconnected 101)]
-    (by simp [NoUnconf]) 7 { parent := 1, needs := some 5, holder := true } (by simp [K]) rfl (by intro t _; simp [K]) (by decide) 100 (by decide) (by decide)
-  revert this
-  decide
+/-- what the repair of KF-C11-3 (repo commit 0461f57) changed, in the model: OUR commitment confirms
+    at 100, the preimage arrives two blocks later — the claim is dated 100 (before the repair: 102) and
+    a fork replacing only block 102 keeps it -/
+example :
+    let K : ClaimCat := { outs := [(7, { parent := 1, needs := some 5, holder := true })], spends := fun _ => [] }
+    (crun exCat K (cinit 99) [.chain (.blockConnected 100 [1]), .chain (.bestBlock 102), .preimage 5]).claims = [⟨7, 100⟩] ∧
+    (crun exCat K (cinit 99) [.chain (.blockConnected 100 [1]), .chain (.bestBlock 102), .preimage 5,
+      .chain (.blocksDisconnected 101)]).claims = [⟨7, 100⟩] ∧
+    (crun exCat K (cinit 99) [.chain (.blockConnected 100 [1]), .chain (.bestBlock 102), .preimage 5,
+      .chain (.blocksDisconnected 99), .chain (.txsConfirmed 101 [1])]).claims = [⟨7, 101⟩] := by decide
 
 /-- why `NoUnconf`: a Confirm client that reports the re-org of the commitment with
     `transaction_unconfirmed` only — the monitor forgets the commitment, the handler keeps the claim
